@@ -11,7 +11,7 @@
 use volute::sop::{Esop, Sop};
 use volute::{Lut, Lut3, Lut4, Lut5, Lut6};
 
-pub const NOPS: u64 = 20;
+pub const NOPS: u64 = 28;
 
 fn fnv(h: &mut u64, bytes: &[u8]) {
     for b in bytes {
@@ -135,6 +135,65 @@ pub fn run(sel: u64, n: usize, drawn: &[u64]) -> (u32, Option<u64>) {
             }
             None
         }
+        // 20..27: the CALLER's own, legal, use of the `rand` crate on the same thread between volute's draws
+        // (the thread-local generator is shared with volute; nothing volute keeps may depend on how many
+        // words, half-words or bytes somebody else took from it)
+        20 => {
+            use rand::RngCore;
+            let _ = rand::thread_rng().next_u32();
+            None
+        }
+        21 => {
+            use rand::RngCore;
+            let mut b = [0u8; 67];
+            rand::thread_rng().fill_bytes(&mut b[..1 + arg]);
+            None
+        }
+        22 => {
+            use rand::Rng;
+            let mut g = rand::thread_rng();
+            let _ = (g.gen::<bool>(), g.gen_range(0..arg + 1), g.gen::<u64>());
+            None
+        }
+        23 => {
+            use rand::seq::SliceRandom;
+            let mut v = [0u8, 1, 2, 3, 4, 5, 6];
+            v.shuffle(&mut rand::thread_rng());
+            None
+        }
+        24 => {
+            let _ = (rand::random::<u64>(), rand::random::<u8>());
+            None
+        }
+        25 => {
+            // a handle kept across volute's draws, used a little every time
+            use rand::RngCore;
+            thread_local! { static KEPT: std::cell::RefCell<Option<rand::rngs::ThreadRng>> = const { std::cell::RefCell::new(None) }; }
+            KEPT.with(|k| {
+                let mut k = k.borrow_mut();
+                let g = k.get_or_insert_with(rand::thread_rng);
+                for _ in 0..(arg % 5) {
+                    let _ = g.next_u64();
+                }
+            });
+            None
+        }
+        26 => {
+            // enough words to wrap the generator's block buffer at a varying offset
+            use rand::RngCore;
+            let mut g = rand::thread_rng();
+            for _ in 0..(17 + arg) {
+                let _ = g.next_u64();
+            }
+            None
+        }
+        27 => {
+            use rand::{Rng, SeedableRng};
+            let mut own = rand::rngs::StdRng::from_rng(rand::thread_rng()).unwrap();
+            let mut other = rand::rngs::SmallRng::from_entropy();
+            let _ = (own.gen::<u64>(), other.gen::<u32>());
+            None
+        }
         _ => {
             let mut l = Lut::zero(7);
             l.set_bit(arg % 128);
@@ -144,4 +203,55 @@ pub fn run(sel: u64, n: usize, drawn: &[u64]) -> (u32, Option<u64>) {
         }
     };
     (1_000_000 + op * 10_000 + arg as u32, r)
+}
+
+/// An ILLEGAL call of another volute function: an index out of range or operands of different sizes.
+/// The library documents these as panics; the caller (main.rs) decides whether the unwind is caught.
+pub fn illegal(sel: u64, n: usize, drawn: &[u64]) {
+    let well_formed = drawn.len() == if n <= 6 { 1 } else { 1usize << (n - 6) } && (n >= 6 || drawn[0] >> (1u32 << n) == 0);
+    let l = if well_formed { Lut::from_blocks(n, drawn) } else { Lut::zero(n) };
+    match sel % 13 {
+        0 => {
+            let _ = Lut::nth_var(3, 5);
+        }
+        1 => {
+            let _ = l.swap(0, n + 1);
+        }
+        2 => {
+            let _ = l.flip(n);
+        }
+        3 => {
+            let _ = l.cofactors(n + 2);
+        }
+        4 => {
+            let _ = Lut::from_blocks(3, &[0, 0]);
+        }
+        5 => {
+            let _ = &l & &Lut::one(n + 1);
+        }
+        6 => {
+            let _ = l.value(1usize << n);
+        }
+        7 => {
+            let _ = Lut::bdd_complexity(&[Lut::from_blocks(3, &[0xe8]), Lut::from_blocks(4, &[0x6ac8])]);
+        }
+        8 => {
+            let _ = l.top_decomposition(n);
+        }
+        9 => {
+            let mut m = l.clone();
+            m.set_bit(1usize << n);
+        }
+        10 => {
+            let _ = Lut5::nth_var(5);
+        }
+        11 => {
+            // canonization of a 1-variable function panics at the pinned commit
+            let _ = Lut::nth_var(1, 0).p_canonization();
+            let _ = Lut::nth_var(3, 7);
+        }
+        _ => {
+            let _ = l.clone() ^ Lut::zero(n + 1);
+        }
+    }
 }
